@@ -575,11 +575,7 @@ def rule_N5(ctx):
            "" if ok else f"path components come from `{[norm(g[0]) for g in grows]}`", inst="export_path")
     adv = [a for a in own_nodes(ep) if isinstance(a, ast.Assign) and norm(a) == "current_node = current_node.parent"]
     ctx.ob("N5", ep, "export_path climbs through .parent", len(adv) == 1, "", inst="export_path-parent")
-    for prop in ("safe_name", "export_name"):
-        f = ctx.fn(BASE, f"Element.{prop}", "N5")
-        t = full(f)
-        ok = f"self._{prop}" in t and "result = self.name" in t
-        ctx.ob("N5", f, f"Element.{prop} returns the assigned _{prop} (raw name only when none was assigned)", ok, "", inst=prop)
+    _name_props(ctx, "N5")
     mo = ctx.fn(ST, "ExportManager.make_output_path", "N5")
     rc = return_canons(mo)
     ok = rc == [f"'/'.join({mo.args.args[1].arg}.export_path())"]
@@ -616,6 +612,113 @@ def rule_N5(ctx):
             if isinstance(c, ast.Call) and dotted(c.func) in ("os.open", "io.open", "os.fdopen", "os.remove", "os.unlink", "os.rename", "shutil.rmtree", "os.truncate"):
                 ctx.ob("N5", c, "no low-level file creation / deletion outside export_wav's open()", False, f"{norm(c)[:80]} in {q}", inst=f"lowlevel@{q}")
     ctx.fact("N5", "open_calls", n)
+
+
+def _name_props(ctx, rid):
+    """Element.safe_name / export_name by case analysis (mini-interpreter, no repository code is run):
+    attribute absent -> raw name, None -> raw name, '' -> '' (an assigned name is used even when it is empty), 'X' -> 'X'"""
+    from .sem import Mini, Sym
+    for prop in ("safe_name", "export_name"):
+        f = ctx.fn(BASE, f"Element.{prop}", rid)
+        attr = "_" + prop
+        res = {}
+        for case, (present, val) in {"absent": (False, None), "none": (True, None), "empty": (True, ""), "set": (True, "X")}.items():
+            def special(node, interp, present=present, val=val):
+                if isinstance(node, ast.Call) and isinstance(node.func, ast.Name) and node.func.id in ("hasattr", "getattr") and len(node.args) >= 2 \
+                        and norm(node.args[0]) == "self" and isinstance(node.args[1], ast.Constant) and node.args[1].value == attr:
+                    if node.func.id == "hasattr":
+                        return ("bool", present)
+                    if present:
+                        return ("val", val)
+                    return ("val", interp.ev(node.args[2])) if len(node.args) > 2 else ("val", Sym("AttributeError"))
+                if isinstance(node, ast.Attribute) and norm(node) == f"self.{attr}":
+                    return ("val", val) if present else ("val", Sym("AttributeError"))
+                return None
+
+            class M(Mini):
+                def ev(self, node):
+                    sp = special(node, self)
+                    if sp is not None:
+                        return sp[1]
+                    return super().ev(node)
+
+            m = M(ctx, f._module)
+            m.undecided = 0
+            r = m.run(f.body)
+            out = m.env.get("<return>", Sym("no-return")) if r == "return" else Sym("no-return")
+            res[case] = "?" if m.undecided else out
+        want = {"absent": "self.name", "none": "self.name", "empty": "", "set": "X"}
+        got = {k: (str(v) if isinstance(v, Sym) else v) for k, v in res.items()}
+        if any(v == "?" for v in got.values()):
+            raise AnalysisError(rid, where(f), f"Element.{prop}: a test could not be decided in the case analysis ({got}); unrecognised idiom")
+        ok = got == want
+        ctx.ob(rid, f, f"Element.{prop} returns the assigned _{prop} whenever one was assigned (even an empty one), the raw name otherwise", ok,
+               "" if ok else f"case analysis attribute absent/None/''/'X' -> {got}, expected {want}", inst=prop)
+
+
+def rule_N10(ctx):
+    """the names ls prints and the lookup compares are the assigned safe names (C10)"""
+    _name_props(ctx, "N10")
+
+
+def rule_N11(ctx):
+    """token normalisation used by the path lookup is total: it never raises on any string, in particular not on the
+    empty token / empty safe name.  Constant indexing into a string needs a non-emptiness guard unless parse_path's
+    handler catches IndexError."""
+    from .sem import emptiness
+    pp = ctx.fn(ST, "Traversable.parse_path", "N11")
+    caught = set()
+    for t in own_nodes(pp):
+        if isinstance(t, ast.Try):
+            for h in t.handlers:
+                caught |= set(handler_names(h))
+    tolerant = bool(caught & {"IndexError", "LookupError", "Exception", "<bare>", "BaseException"})
+    n = 0
+    for m, q, fn in ctx.prog.all_functions():
+        if not q.endswith("._sanitize_string"):
+            continue
+        n += 1
+        params = [a.arg for a in fn.args.args]
+        for sub in own_nodes(fn):
+            if not isinstance(sub, ast.Subscript) or isinstance(sub.slice, ast.Slice) or not isinstance(sub.ctx, ast.Load):
+                continue
+            idx = sub.slice
+            if isinstance(idx, ast.UnaryOp) and isinstance(idx.op, ast.USub):
+                idx = idx.operand
+            if not (isinstance(idx, ast.Constant) and isinstance(idx.value, int)) or not isinstance(sub.value, ast.Name):
+                continue
+            base = sub.value.id
+            guarded = tolerant
+            # idiom 1: `<nonempty(base)> and ... base[k]` ; idiom 2: inside `if <nonempty(base)>:` ; idiom 3: after `if <empty(base)>: return/raise`
+            node, child = getattr(sub, "_parent", None), sub
+            while node is not None and node is not fn and not guarded:
+                if isinstance(node, ast.BoolOp) and isinstance(node.op, ast.And):
+                    i = next((k for k, v in enumerate(node.values) if v is child or any(x is child for x in ast.walk(v))), None)
+                    if i is not None and any(emptiness(fn, v, base) is False for v in node.values[:i]):
+                        guarded = True
+                if isinstance(node, ast.If) and any(x is child for b in node.body for x in ast.walk(b)):
+                    tests = node.test.values if isinstance(node.test, ast.BoolOp) and isinstance(node.test.op, ast.And) else [node.test]
+                    if any(emptiness(fn, v, base) is False for v in tests):
+                        guarded = True
+                if isinstance(node, ast.If) and any(x is child for b in node.orelse for x in ast.walk(b)) and emptiness(fn, node.test, base) is True:
+                    guarded = True
+                child, node = node, getattr(node, "_parent", None)
+            if not guarded:
+                for st in fn.body:
+                    if st.lineno >= sub.lineno:
+                        break
+                    if isinstance(st, ast.If) and emptiness(fn, st.test, base) is True and st.body and isinstance(st.body[-1], (ast.Return, ast.Raise)):
+                        # base must not be reassigned between the guard and the use
+                        re_as = [a for a in own_nodes(fn) if isinstance(a, (ast.Assign, ast.AugAssign)) and st.lineno < a.lineno < sub.lineno
+                                 and any(isinstance(t, ast.Name) and t.id == base for t in (a.targets if isinstance(a, ast.Assign) else [a.target]))]
+                        if not re_as:
+                            guarded = True
+            ctx.ob("N11", sub, "constant index into the token being normalised is guarded by a non-emptiness test (empty tokens and empty names reach this function)", guarded,
+                   "" if guarded else f"`{norm(sub)}` raises IndexError on the empty string; parse_path converts only {sorted(caught)} into `was not found`",
+                   inst=f"index:{q}:{norm(sub)}")
+        ctx.ob("N11", fn, "token normaliser analysed", True, "", inst=f"normaliser:{q}")
+    if n < 2:
+        raise AnalysisError("N11", ST, f"expected the base and the AKAI _sanitize_string, found {n}")
 
 
 # ------------------------------------------------------------------------ N6
@@ -677,9 +780,30 @@ def rule_N7(ctx):
     fn = ctx.fn(ST, "Image.sanitize_names_general", "N7")
     cfg = ctx.cfg(fn, "N7")
     fors = sorted([f for f in own_nodes(fn) if isinstance(f, ast.For)], key=lambda f: f.lineno)
-    if len(fors) != 3:
-        raise AnalysisError("N7", where(fn), f"expected three for-loops (grouping, groups, members), found {len(fors)}")
-    f1, f2, f3 = fors
+    # loops by role: groups = loop over <dict>.items(); members = loop nested in it; grouping = the loop that fills <dict>
+    groups = [f for f in fors if isinstance(f.iter, ast.Call) and isinstance(f.iter.func, ast.Attribute) and f.iter.func.attr == "items"
+              and isinstance(f.iter.func.value, ast.Name)]
+    if len(groups) != 1:
+        raise AnalysisError("N7", where(fn), f"expected one loop over the groups dict (.items()), found {len(groups)}")
+    f2 = groups[0]
+    gdict = f2.iter.func.value.id
+    members = [f for f in fors if f is not f2 and any(x is f for x in ast.walk(f2))]
+    grouping = [f for f in fors if f is not f2 and f not in members and any(
+        isinstance(c, ast.Call) and isinstance(c.func, ast.Attribute) and c.func.attr in ("append", "setdefault") and gdict in norm(c) for c in ast.walk(f))]
+    if len(members) != 1 or len(grouping) != 1:
+        raise AnalysisError("N7", where(fn), f"expected one grouping loop and one member loop, found {len(grouping)} / {len(members)}")
+    f1, f3 = grouping[0], members[0]
+    # every name that is assigned comes out of the de-duplication: f_set is called only inside the groups loop
+    setter = fn.args.args[3].arg if len(fn.args.args) > 3 else "f_set"
+    for c in own_nodes(fn):
+        if isinstance(c, ast.Call) and isinstance(c.func, ast.Name) and c.func.id == setter:
+            inside = any(x is c for x in ast.walk(f2))
+            ctx.ob("N7", c, "a name is assigned only by the de-duplication (inside the loop over the name groups)", inside,
+                   "" if inside else f"`{norm(c)}` outside the group loop: elements named here bypass the '(n)' de-duplication, two siblings can receive the same name",
+                   inst=f"setter-site:{'in' if inside else 'out'}:{norm(c)}")
+    for r in own_nodes(fn):
+        if isinstance(r, ast.Return) and r.lineno < f2.lineno:
+            ctx.ob("N7", r, "no return before the de-duplication ran", False, f"return at line {r.lineno} precedes the group loop", inst="early-return")
     # grouping: candidate = f_sanitize(element.name, is_file); every element is put in exactly one group
     asg = {norm(a.targets[0]): norm(a.value) for a in ast.walk(f1) if isinstance(a, ast.Assign) and len(a.targets) == 1}
     ok = asg.get("candidate_name") == "f_sanitize(element.name, is_file)" and asg.get("is_file") == "element.type_id != ElementTypes.DirectoryEntry"
